@@ -418,6 +418,11 @@ def validate_trace(ctx, module, lines, constants=None, shard=4000, timeout=900, 
             for b in result.get("bad", []):
                 if isinstance(b, dict):
                     ln, why = sh[b["l"] - 1], b.get("why", "")
+                    if "want" in b:       # the specification's expected result, kept with the replay line
+                        try:
+                            ln = json.dumps(dict(json.loads(ln), _want=b["want"]))
+                        except Exception:
+                            pass
                 else:
                     ln, why = sh[b - 1], ""
                 groups.setdefault(why, []).append(ln)
